@@ -87,6 +87,11 @@ def injections(prog):
         out.append(("after-sr", dict(prog, steps=[["raise", "step0"]])))
     if prog.get("close") == "ok" and not prog["ret"].startswith("fw_"):
         out.append(("close", dict(prog, close="raise")))
+    if prog["ret"] in ("gen", "iterlen") and prog.get("close") == "ok" and not any(op == "write" for op, _ in steps) \
+            and any(op == "yield" and a for op, a in steps):
+        # the iterable has __len__ but asking fails: whether and when the server asks is its business;
+        # the failure is the application's, to be contained like any other
+        out.append(("len", dict(prog, ret="iterlen", len_raises=True)))
     return out
 
 
@@ -280,6 +285,20 @@ def judge(case, o, acc):
             out.append(("file-not-closed", "the file handed to wsgi.file_wrapper was never closed"))
         elif fcloses > 1:
             acc.count("file-closed-more-than-once")
+    if prog.get("len_raises") and not disconnect:
+        # either the server never asked (complete 200) or the failure is answered like any other before
+        # output (complete 500, connection closed); the iterable is closed either way (judged above)
+        finals = [r for r in resps if not r["interim"]]
+        asked = log.count("len-raised", "case") > 0
+        acc.count("len-probe:asked" if asked else "len-probe:not-asked")
+        if not finals or not finals[0].get("complete") or werr:
+            out.append(("len-failure-not-contained", f"asked={asked}: no complete response (eof={o.get('eof')}, wire={wire[:60]!r}, err={werr})"))
+        elif asked and finals[0]["status"] not in (200, 500):
+            # (a server may also shrug the TypeError off and go on without a length: 200)
+            out.append(("len-failure-not-contained", f"len() of the iterable raised and the response is {finals[0]['status']}"))
+        elif not asked and finals[0]["status"] != 200:
+            out.append(("len-failure-not-contained", f"len() was never asked but the response is {finals[0]['status']}"))
+        return out
     if case.get("after_head"):
         acc.count("disconnect-between-head-and-body-handover")
         return out
